@@ -45,6 +45,8 @@ def handleMixSetX (j : Json) : R Json := do
   let m ← mixOf (← getF j "m")
   let v ← ratOf (← getF j "v")
   let which ← strOf (← getF j "which")
+  if which == "print" || which == "print0" then
+    return Json.mkObj [("s", Json.str (String.ofList (printMixX { abs := m.abs, rel := m.rel } (which == "print"))))]
   let r := if which == "sys" then setSysX m v else setRelX m v
   match r with
   | .error e => pure (Json.mkObj [("ok", Json.bool false), ("err", Json.str ((reprStr e).replace "GBS.EErr." ""))])
